@@ -15,7 +15,7 @@
    this is modelled by the atomic events EEnsure / EDone, not verified. Cleanup handlers (TaskRunner.clean) are not
    subject to the predicates: the gadget-alone clause is refuted for them (C07_gadget_alone_refuted_by_cleanup, known
    finding) and proved in guarded form. *)
-From Coq Require Import List NArith Bool.
+From Coq Require Import List NArith Bool Sorting.Permutation.
 Import ListNotations.
 Require Import V.lib.Bytes V.models.Blocked V.proofs.BlockedProofs.
 Open Scope N_scope.
@@ -67,13 +67,33 @@ Theorem C07_no_two_prereq : forall evs a b,
 Proof. exact no_two_prereq. Qed.
 Print Assumptions C07_no_two_prereq.
 
-(* gadget-asset update alone — the full statement (while update-gadget-assets executes no other task has a goroutine)
-   is FALSE of the faithful model and of the real runner: see C07_gadget_alone_refuted_by_cleanup. What is proved:
-   among do/undo handlers it is alone (partial: cleanups excluded) ... *)
-Theorem C07_gadget_alone_among_handlers_partial : forall evs a,
+(* ---- gadget-asset update. Histories (`list event`) are arbitrary sequences of Ensure passes (any candidates, any
+   order), goroutine completions in any order, aborts (statuses change, tombs stay until the goroutine returns) and snapd
+   restarts (new runner, no goroutines).
+   Full statement over handlers: while update-gadget-assets executes, no other do/undo handler of any task executes ... *)
+Theorem C07_gadget_exclusive : forall evs a,
   In a (handlers (run evs)) -> is_gadget a = true -> handlers (run evs) = [a].
 Proof. exact gadget_alone. Qed.
-Print Assumptions C07_gadget_alone_among_handlers_partial.
+Print Assumptions C07_gadget_exclusive.
+
+(* ... no pass that begins with any goroutine at all (handler or cleanup) starts it ... *)
+Theorem C07_gadget_never_starts_next_to_running : forall tb cs t,
+  is_gadget t = true -> In (t, false) (ensure_pass tb cs) -> ~ In (t, false) tb -> tb = [].
+Proof. exact gadget_never_starts_next_to_running. Qed.
+Print Assumptions C07_gadget_never_starts_next_to_running.
+
+(* ... and no pass starts another handler while it has its goroutine, from any tomb set whatever *)
+Theorem C07_nothing_starts_next_to_gadget : forall tb cs a x,
+  In (a, false) tb -> is_gadget a = true -> In (x, false) (ensure_pass tb cs) -> In (x, false) tb.
+Proof. exact nothing_starts_next_to_gadget. Qed.
+Print Assumptions C07_nothing_starts_next_to_gadget.
+
+(* the exact carve-out of the known finding cleanup-starts-next-to-gadget-update: whatever has a goroutine next to an
+   executing update-gadget-assets handler is a cleanup goroutine (TaskRunner.clean) ... *)
+Theorem C07_gadget_coexists_only_with_cleanups : forall evs a x,
+  In (a, false) (run evs) -> is_gadget a = true -> In x (run evs) -> x = (a, false) \/ snd x = true.
+Proof. exact gadget_coexists_only_with_cleanups. Qed.
+Print Assumptions C07_gadget_coexists_only_with_cleanups.
 
 (* ... it is literally alone in every history in which no cleanup goroutine is started (no ready change has an
    uncleaned task of a kind with a cleanup handler: copy-snap-data, prepare-remodeling, set-model,
@@ -100,7 +120,52 @@ Theorem C07_gadget_alone_refuted_by_cleanup :
 Proof. exact gadget_alone_refuted_by_cleanup. Qed.
 Print Assumptions C07_gadget_alone_refuted_by_cleanup.
 
+(* ---- predicate composition (TaskRunner.AddBlocked / SetBlocked / the loop over r.blocked in Ensure) *)
+
+(* `blocked` is the disjunction of the registered predicates asked in registration order ... *)
+Theorem C07_blocked_registered : forall t running, blocked t running = blocked_by registered t running.
+Proof. exact blocked_registered. Qed.
+Print Assumptions C07_blocked_registered.
+
+(* ... the order in which the managers call AddBlocked is irrelevant: in every order the runner implements `conflict` ... *)
+Theorem C07_blocked_any_registration_order : forall ps t running,
+  Permutation registered ps -> blocked_by ps t running = existsb (conflict t) running.
+Proof. exact blocked_any_registration_order. Qed.
+Print Assumptions C07_blocked_any_registration_order.
+
+(* ... and a further AddBlocked can only block more *)
+Theorem C07_add_blocked_monotone : forall ps p t running,
+  blocked_by ps t running = true -> blocked_by (add_blocked ps p) t running = true.
+Proof. exact add_blocked_monotone. Qed.
+Print Assumptions C07_add_blocked_monotone.
+
+(* r.someBlocked: a candidate that reached the blocked check and has no goroutine after the pass was blocked, and the
+   flag is then set, so that the next finishing goroutine schedules another Ensure (no blocked task is forgotten) *)
+Theorem C07_some_blocked_complete : forall t cs tb,
+  In (CRun t) cs -> has_tomb (t_id t) (ensure_pass tb cs) = false -> some_blocked tb cs = true.
+Proof. exact some_blocked_complete. Qed.
+Print Assumptions C07_some_blocked_complete.
+
 (* ---- non-vacuity *)
+Example C07_abort_restart_example :
+  (* hook of snap-a executing; its change aborted; the second hook of snap-a stays blocked until the first returns;
+     after a restart nothing has a goroutine and a hook of snap-a can start again *)
+  let h1 := mkT 1 (kd 0) (Some (sn 0)) in let h2 := mkT 2 (kd 0) (Some (sn 0)) in
+  map (fun x => t_id (fst x)) (run [EEnsure [CRun h1]; EAbort [1]; EEnsure [CRun h2]]) = [1] /\
+  map (fun x => t_id (fst x)) (run [EEnsure [CRun h1]; EAbort [1]; EEnsure [CRun h2]; EDone 1; EEnsure [CRun h2]]) = [2] /\
+  map (fun x => t_id (fst x)) (run [EEnsure [CRun h1]; ERestart; EEnsure [CRun h2; CRun h1]]) = [2] /\
+  some_blocked [(h1, false)] [CRun h2] = true /\ some_blocked [] [CRun h2] = false.
+Proof. vm_compute. auto. Qed.
+Example C07_gadget_start_example :
+  let g := mkT 8 (kd 2) None in let c := mkT 1 (kd 14) None in
+  ensure_pass [] [CRun g] = [(g, false)] /\ ensure_pass [(c, true)] [CRun g] = [(c, true)] /\
+  ensure_pass [(g, false)] [CRun (mkT 3 (kd 8) None); CClean c] = [(g, false); (c, true)].
+Proof. vm_compute. auto. Qed.
+Example C07_registration_order_example :
+  let t := mkT 2 (kd 4) None in let r := [mkT 1 (kd 3) None] in
+  blocked_by [gadget_blocked; iface_blocked; prereq_blocked; hook_blocked] t r = true /\ blocked t r = true /\
+  blocked_by [hook_blocked; prereq_blocked; gadget_blocked] t r = false.
+Proof. vm_compute. auto. Qed.
 Example C07_run_example :
   map (fun x => t_id (fst x))
       (run [EEnsure [CRun (mkT 1 (kd 0) (Some (sn 0))); CRun (mkT 2 (kd 0) (Some (sn 0))); CRun (mkT 3 (kd 0) (Some (sn 1)));
